@@ -145,12 +145,13 @@ def strsOf : List J → Option (List String)
   | .str s :: rest => (strsOf rest).map (s :: ·)
   | _ :: _ => none
 
-/-- Python's `str(e)` on the members `Fn::Join` is given: text as it is; numbers and booleans that a mapping holds
-    (returned raw by `Fn::FindInMap`) by their Python spelling; containers are outside the typed fragment -/
+/-- the text of a member `Fn::Join` is given (`str(_as_text(e))`): text as it is; numbers and booleans that a mapping
+    holds (returned raw by `Fn::FindInMap`) as the text they render to in a template — `true`, not Python's `True`
+    (D41); containers are outside the typed fragment -/
 def pyStrOf : J → Option String
   | .str s => some s
   | .int i => some (String.ofList (intToChars i))
-  | .bool b => some (if b then "True" else "False")
+  | .bool b => some (if b then "true" else "false")
   | .num r => some r
   | _ => none
 
